@@ -536,6 +536,11 @@ func ruleFanOut(w *World, r *Report, rule string) {
 	storing := storingFuncs(w, ro)
 	fams := 0
 	ast.Inspect(fi.Decl.Body, func(x ast.Node) bool {
+		// a test inside a loop (which output is the requested one?) is not the branch for a constructor form
+		switch x.(type) {
+		case *ast.ForStmt, *ast.RangeStmt:
+			return false
+		}
 		ifs, ok := x.(*ast.IfStmt)
 		if !ok {
 			return true
